@@ -5,10 +5,11 @@ Copies / Support; invariants SupportProportional, ReferenceReduced, NoRecordIsHo
 RefMismatchReexpressed, HetIsRefSlashAllele).
   MC : spec/mc/MC_VcfInput (6-base reference, one catalogued variant of each kind, every record with
        REF/ALT <= 2 bases, six genotypes, <= 2 records per file in both orders).
-  (A): every file of the MC universe (spec/gen/VcfInputGen; quick: every K-th single-record file + all
+  (A): every file of the MC universe (spec/gen/VcfInputGen; quick: every 97th single-record file + all
        focused 1/2-record files) is written as a real bgzipped, tabix-indexed VCF over the realised
        MC gene (+ and - strand), loaded by the real Sample(...), projected, validated by
-       spec/trace/VcfTrace.tla; genotype() on the files that carry an allele heterozygously.
+       spec/trace/VcfTrace.tla; genotype() on the files that carry an allele heterozygously
+       (the spec decides which: CarriesHet).
   (B): shipped genes and generated databases: catalogued major/minor alleles written as standard
        left-anchored records by a writer that works from the YAML (gen_db.from_yaml) + independent
        coordinate maps, het/hom, phased or not, multi-allelic, REF-mismatch spelling, MNP as one record or
@@ -579,13 +580,11 @@ def _run_bindings(ctx, rng, quick, pool):
             raise MachineryError(f"realised MC gene ({strand}) does not match the spec's gene: {sorted(g.mutations)} vs {want}")
     mc_alleles = [{"name": a["name"], "vs": a["vs"]} for a in gline["alleles"]]
     ref_name = gline["alleles"][0]["name"]
-    if quick:  # all focused files + the sampled single-record files; both strands alternate
-        chosen = files
-    else:
-        chosen = files
+    # quick: all focused 1/2-record files + every 97th single-record file; thorough: every file of the MC universe.
+    # Each file runs on one strand of the realised gene (alternating); every 5th (thorough: and every pair) on both.
     jobs, meta = [], {}
     jid = 0
-    for f in chosen:
+    for f in files:
         recs = sorted(f["recs"], key=lambda r_: r_["pos"])  # VCF must be position-sorted (same-POS pairs keep both orders)
         both = f["id"] % 5 == 0 or (not quick and len(recs) == 2)
         for strand in ("+-" if both else "+-"[(f["id"] + ctx.seed) % 2]):
